@@ -349,6 +349,17 @@ func (r *resolver) Resolve(ctx context.Context, vk resolve.VersionKey) (*resolve
 				}
 				continue
 			}
+			// The name is reserved at this very level when an earlier
+			// requirement of this version has been resolved higher up under
+			// the same name: a copy installed here would shadow it.
+			if !installHere && r.protected(cur, node.pkg, alias) {
+				err := g.AddError(cur.id, idep.VersionKey,
+					fmt.Sprintf("cannot install a second package under the name already resolved for this version: %v (%s)", node.pkg, alias))
+				if err != nil {
+					return nil, err
+				}
+				continue
+			}
 			for !installHere && parent.parent != nil {
 				if c, _ := r.candidate(parent.parent, node.pkg, alias); c != nil {
 					break
